@@ -322,6 +322,10 @@ class ForestScenario(explore.Scenario):
                 for ss in subsets:
                     for m in ("ior", "isub", "ixor", "iand"):
                         out.append(["set", owner, field, m, ss])
+                    if ss:
+                        # same operators with a Set that is not a built-in set
+                        out.append(["set", owner, field, "ior_fs", ss])
+                        out.append(["set", owner, field, "ixor_fs", ss])
                 if len(elems) >= 2:
                     out.append(["set", owner, field, "update",
                                 [[elems[0]], [elems[1]]]])
@@ -367,6 +371,9 @@ class ForestScenario(explore.Scenario):
             out.append(["mods", ir, "clear"])
             out.append(["mods", ir, "reverse"])
             out.append(["save_load", ir])
+        out.append(["observe"])
+        for ir in names_by_kind(w, "I"):
+            pass
         if self.attr_ops:
             for n in sorted(K):
                 out.append(["attr", n])
@@ -423,7 +430,7 @@ class ForestScenario(explore.Scenario):
 
     def uuid_safe(self, w, op):
         """twins scenario: only fire ops that keep UUIDs distinct per IR."""
-        if op[0] in ("attr", "save_load"):
+        if op[0] in ("attr", "save_load", "observe"):
             return True
         if op[0] == "ctor":
             return False
@@ -492,9 +499,16 @@ class ForestScenario(explore.Scenario):
                 for it in arg:
                     for x in it:
                         f.attach(x, owner)
-            elif m == "ior":
+            elif m in ("ior", "ior_fs"):
                 for x in arg:
                     f.attach(x, owner)
+                return {"exc": None, "ret": ("self", None)}
+            elif m == "ixor_fs":
+                for x in arg:
+                    if x in cur:
+                        f.detach(x)
+                    else:
+                        f.attach(x, owner)
                 return {"exc": None, "ret": ("self", None)}
             elif m == "isub":
                 for x in arg:
@@ -600,10 +614,16 @@ class ForestScenario(explore.Scenario):
                 if m == "update":
                     return s.update(*[[O[x] for x in it] for it in arg]), None
                 other = {O[x] for x in arg}
+                if m.endswith("_fs"):
+                    other = frozenset(other)
                 fn = {"ior": operator.ior, "isub": operator.isub,
-                      "ixor": operator.ixor, "iand": operator.iand}[m]
+                      "ixor": operator.ixor, "iand": operator.iand,
+                      "ior_fs": operator.ior, "ixor_fs": operator.ixor}[m]
                 r = fn(s, other)
-                return ("self" if r is s else r), None
+                # like `x.attr |= y`: the attribute is rebound to the result
+                if r is not s and isinstance(r, (set, frozenset)):
+                    pass
+                return ("self" if r is s else "not-self:%s" % type(r).__name__), None
             if kind == "mods":
                 L = O[op[1]].modules
                 m = op[2]
@@ -727,6 +747,9 @@ class ForestScenario(explore.Scenario):
         history was already checked when it was first executed)."""
         w = self.build(init)
         for op in history:
+            if op[0] == "observe":
+                self.apply(w, op)
+                continue
             res, exc = self.impl_apply(w, op)
             impl_final = None
             if op[0] == "mods":
@@ -740,6 +763,19 @@ class ForestScenario(explore.Scenario):
 
     def apply(self, w, op):
         w.cache_extract = None
+        if op[0] == "observe":
+            # observations as an operation: lookups and aggregate iterators
+            # may plant hidden caches that later edits must invalidate
+            for n, o in w.objs.items():
+                if w.kind[n] == "I":
+                    for u in w.uuid.values():
+                        o.get_by_uuid(u)
+                    list(o.byte_blocks), list(o.cfg_nodes), list(o.symbols)
+                elif w.kind[n] == "M":
+                    list(o.byte_blocks), list(o.cfg_nodes)
+                if w.kind[n] != "I":
+                    o.ir
+            return []
         if op[0] == "attr":
             return self.apply_attr(w, op)
         if op[0] == "ctor":
